@@ -232,7 +232,7 @@ func c03ReachesMapUpdate(fn *ssa.Function, depth int, seen map[*ssa.Function]boo
 
 func c03R1(c *Ctx) {
 	const R = "C03.R1.find-roots-shape"
-	c.Expect(R, 12)
+	c.Expect(R, 13)
 	fs := c03RootFinders(c.P)
 	if len(fs) == 0 {
 		c.LostAnchor(R, "root finder (pops copyutil.Stack and calls ExtendedCopyGraphOptions.FindPredecessors) in package ~")
@@ -403,6 +403,46 @@ func c03R1(c *Ctx) {
 				}
 			}
 			return false
+		}
+		// the DFS goes on until the stack is empty: an iteration ends in the next iteration or in an error, never by
+		// leaving the loop towards a successful return (a `break` on an already visited node drops the rest of the stack)
+		{
+			early := ""
+			var at token.Pos = pop.Pos()
+			if rangeMode {
+				for _, r := range Returns(B) {
+					if k, isK := r.Results[0].(*ssa.Const); !isK || k.Value == nil || boolConst(k) {
+						continue
+					}
+					// `return false` from the body: legitimate only as the enclosing function's (error) return, which
+					// first stores that function's results
+					stores := newCut()
+					AllInstrs(B, func(in ssa.Instruction) {
+						if st, isSt := in.(*ssa.Store); isSt {
+							if _, isFV := st.Addr.(*ssa.FreeVar); isFV && types.Identical(st.Val.Type(), types.Universe.Lookup("error").Type()) {
+								stores.Instr(st)
+							}
+						}
+					})
+					if !MustPass(r, stores) {
+						early, at = "the loop body can stop the iteration (break) without an error", r.Pos()
+					}
+				}
+			} else {
+				stop := newCut()
+				for _, n := range nexts {
+					stop.Instr(n)
+				}
+				for _, st := range starts {
+					for _, r := range Returns(F) {
+						if reach(st.b, st.i, r, stop) && !c01IsErrorReturn(r, ErrResultIndex(F.Signature)) {
+							early, at = "after a successful Pop the loop can be left towards a successful return (break) although the stack is not empty", r.Pos()
+						}
+					}
+				}
+			}
+			c.Check(R, fname+"|dfs-runs-until-stack-empty", at, early == "",
+				ifelse(early == "", "an iteration of the DFS ends in the next iteration or in an error return; the loop is left successfully only when Pop reports an empty stack", early+": nodes still on the stack are never examined, their ancestors are not copied"))
 		}
 		// values denoting the popped NodeInfo / its fields
 		isCurrent := func(base ssa.Value) bool {
@@ -1791,8 +1831,8 @@ func c03R3(c *Ctx) {
 			}
 			found := false
 			for _, s := range sinks {
-				if !s.feasible(k) {
-					continue
+				if !s.feasible(k) || c03OnDecodeFailure(s) {
+					continue // (a member read only where decoding the document failed derives nothing)
 				}
 				switch {
 				case s.Kind == "AT", s.Kind == "CFG" && kind == "image-manifest":
